@@ -257,6 +257,16 @@ func c01Msgs(n int) []*Message {
 		for j := 0; j < i; j++ {
 			body += "more text to make sizes differ\r\n"
 		}
+		if i == 2 {
+			// an incompressible payload (JPEG/ZIP-like): the compressed form is larger than the message
+			x := uint32(12345)
+			b := make([]byte, 1500)
+			for k := range b {
+				x = x*1664525 + 1013904223
+				b[k] = byte(0x21 + (x>>16)%0xdd)
+			}
+			body = string(b) + "\r\n"
+		}
 		out = append(out, mkMsg(c01MIDs[i], "subj"+refItoa(i), body))
 	}
 	return out
